@@ -73,7 +73,7 @@ func genC01(r *Rand, tier string, i int) *h.Scenario {
 	// ... or by a render error; Wait must return all the same
 	if r.Bool(0.1) && len(sc.Bars) > 0 {
 		site := []int{h.FaultFill, h.FaultExt, h.FaultOutWrite, h.FaultOutShort}[r.Intn(4)]
-		sc.Faults = []h.Fault{{Site: site, Bar: r.Intn(len(sc.Bars)), K: r.Range(1, 5)}}
+		sc.Faults = []h.Fault{{Site: site, Bar: r.Intn(len(sc.Bars)), K: r.Range(1, 5), Err: []int{0, 0, 1, 2, 3, 4, 5, 6}[r.Intn(8)]}}
 		if site == h.FaultOutWrite || site == h.FaultOutShort {
 			sc.Faults[0].Bar = 0
 		}
@@ -161,7 +161,7 @@ func genC02(r *Rand, tier string, i int) *h.Scenario {
 	// the container may also be done because a render failed: late calls behave the same
 	if r.Bool(0.15) && len(sc.Bars) > 0 {
 		site := []int{h.FaultFill, h.FaultExt, h.FaultOutWrite}[r.Intn(3)]
-		sc.Faults = []h.Fault{{Site: site, Bar: r.Intn(len(sc.Bars)), K: r.Range(1, 5)}}
+		sc.Faults = []h.Fault{{Site: site, Bar: r.Intn(len(sc.Bars)), K: r.Range(1, 5), Err: []int{0, 0, 1, 2, 3, 4, 5, 6}[r.Intn(8)]}}
 		if site == h.FaultOutWrite {
 			sc.Faults[0].Bar = 0
 		}
@@ -298,7 +298,7 @@ func genC16(r *Rand, tier string, i int) *h.Scenario {
 	} else if r.Bool(0.3) && len(sc.Bars) > 0 {
 		// error path: some render fault ends the container
 		site := []int{h.FaultFill, h.FaultFill, h.FaultExt, h.FaultOutWrite, h.FaultTermSize}[r.Intn(5)]
-		sc.Faults = []h.Fault{{Site: site, Bar: r.Intn(len(sc.Bars)), K: r.Range(1, 6)}}
+		sc.Faults = []h.Fault{{Site: site, Bar: r.Intn(len(sc.Bars)), K: r.Range(1, 6), Err: []int{0, 0, 1, 2, 3, 4, 5, 6}[r.Intn(8)]}}
 		if site != h.FaultFill && site != h.FaultExt {
 			sc.Faults[0].Bar = 0
 		}
